@@ -355,7 +355,26 @@ func (g *c05Gen) stmt(d int) *c05N {
 			// with a default block (used when nothing is stored under the name; here something is)
 			use.parts = append(use.parts, " { %>", g.block("helper-block", 1, 0), "<% }")
 		}
-		return &c05N{parts: []interface{}{`<% contentFor("` + name + `") { %>`, body, "<% } %>", g.stmt(0), "<%= ", use, " %>"}}
+		n := &c05N{parts: []interface{}{`<% contentFor("` + name + `") { %>`, body, "<% } %>"}}
+		between := g.stmt(0)
+		// a contentFor may be followed by later ones of the same name (before / after the statement in between) before
+		// contentOf renders what is stored under it
+		for k := g.r.Intn(6); k >= 3 && k < 6; k++ {
+			if k == 4 {
+				n.parts = append(n.parts, between)
+				between = nil
+				continue
+			}
+			g.nested = true
+			again := g.block("contentFor-block", 1, d-1)
+			g.nested = false
+			n.parts = append(n.parts, `<% contentFor("`+name+`") { %>`, again, "<% } %>")
+		}
+		if between != nil {
+			n.parts = append(n.parts, between)
+		}
+		n.parts = append(n.parts, "<%= ", use, " %>")
+		return n
 	case 15, 16: // partial
 		return &c05N{parts: []interface{}{"<%= ", g.partialCall("out", d), " %>"}}
 	case 17, 18: // user function definition + call
@@ -522,11 +541,30 @@ func c05Program(r *Rng) *c05N {
 		body := g.block("contentFor-block", r.Range(1, 2), 1)
 		g.nested = false
 		root.parts = append(root.parts, &c05N{calls: "def:cfT", parts: []interface{}{`<% contentFor("cfT") { %>`, body, "<% } %>"}})
+		if r.Chance(30) {
+			// ... followed by a second one of the same name (generated, like the first, before the name is known to the
+			// generator: a block that renders contentOf of its own name would never end)
+			g.nested = true
+			body = g.block("contentFor-block", 1, 1)
+			g.nested = false
+			root.parts = append(root.parts, &c05N{calls: "def:cfT", parts: []interface{}{`<% contentFor("cfT") { %>`, body, "<% } %>"}})
+		}
 		g.cfTop = append(g.cfTop, "cfT")
 	}
 	n := r.Range(2, 5)
+	// every 8th program or so is a history of two renders on one context: the statements from split on are a second
+	// template, rendered after the first on the same context (a view, then its layout)
+	split := 0
+	if r.Chance(12) {
+		split = r.Range(1, n-1)
+	}
+	dst := root
 	for i := 0; i < n; i++ {
-		root.parts = append(root.parts, g.stmt(3))
+		if split > 0 && i == split {
+			dst = &c05N{ctx: "next-render", partial: c05Next}
+			root.parts = append(root.parts, dst)
+		}
+		dst.parts = append(dst.parts, g.stmt(3))
 	}
 	return root
 }
